@@ -54,28 +54,38 @@ type userPropAdder interface{ AddUserProp(kv ...string) }
 func buildPublish(p *mq.Publish, topic, payload []byte, props []spec.Prop) error {
 	if len(topic) > 0 {
 		p.SetTopicName(string(topic))
+		tick(p)
 	}
 	if len(payload) > 0 {
 		p.SetPayload(cp(payload))
+		tick(p)
 	}
 	for _, pr := range props {
 		switch pr.ID {
 		case 0x01:
 			p.SetPayloadFormat(pr.N != 0)
+			tick(p)
 		case 0x02:
 			p.SetMessageExpiryInterval(pr.N)
+			tick(p)
 		case 0x03:
 			p.SetContentType(string(pr.B))
+			tick(p)
 		case 0x08:
 			p.SetResponseTopic(string(pr.B))
+			tick(p)
 		case 0x09:
 			p.SetCorrelationData(cp(pr.B))
+			tick(p)
 		case 0x0b:
 			p.AddSubscriptionID(pr.N)
+			tick(p)
 		case 0x23:
 			p.SetTopicAlias(uint16(pr.N))
+			tick(p)
 		case 0x26:
 			p.AddUserProp(string(pr.B), string(pr.V))
+			tick(p)
 		case 0x18:
 			// will delay interval lives on the CONNECT; handled by caller
 		default:
@@ -85,6 +95,18 @@ func buildPublish(p *mq.Publish, topic, payload []byte, props []spec.Prop) error
 	return nil
 }
 
+// Between, when set, is called after every setter call Build makes, with
+// the packet under construction: a caller may render or encode the
+// half-built packet there (a program may log a packet while it fills it
+// in). It must not modify the packet.
+var Between func(q any)
+
+func tick(q any) {
+	if Between != nil {
+		Between(q)
+	}
+}
+
 // Build constructs the library packet for p.
 func Build(p *spec.Packet) (mq.Packet, error) {
 	switch p.Type {
@@ -92,39 +114,53 @@ func Build(p *spec.Packet) (mq.Packet, error) {
 		c := mq.NewConnect()
 		if string(p.ProtoName) != "MQTT" {
 			c.SetProtocolName(string(p.ProtoName))
+			tick(c)
 		}
 		if p.ProtoVer != 5 {
 			c.SetProtocolVersion(p.ProtoVer)
+			tick(c)
 		}
 		if p.CleanStart {
 			c.SetCleanStart(true)
+			tick(c)
 		}
 		if p.KeepAlive != 0 {
 			c.SetKeepAlive(p.KeepAlive)
+			tick(c)
 		}
 		if len(p.ClientID) > 0 {
 			c.SetClientID(string(p.ClientID))
+			tick(c)
 		}
 		for _, pr := range p.Props {
 			switch pr.ID {
 			case 0x11:
 				c.SetSessionExpiryInterval(pr.N)
+				tick(c)
 			case 0x21:
 				c.SetReceiveMax(uint16(pr.N))
+				tick(c)
 			case 0x27:
 				c.SetMaxPacketSize(pr.N)
+				tick(c)
 			case 0x22:
 				c.SetTopicAliasMax(uint16(pr.N))
+				tick(c)
 			case 0x19:
 				c.SetRequestResponseInfo(pr.N != 0)
+				tick(c)
 			case 0x17:
 				c.SetRequestProblemInfo(pr.N != 0)
+				tick(c)
 			case 0x15:
 				c.SetAuthMethod(string(pr.B))
+				tick(c)
 			case 0x16:
 				c.SetAuthData(cp(pr.B))
+				tick(c)
 			case 0x26:
 				c.AddUserProp(string(pr.B), string(pr.V))
+				tick(c)
 			default:
 				return nil, nc("property 0x%02x has no setter on Connect", pr.ID)
 			}
@@ -133,9 +169,11 @@ func Build(p *spec.Packet) (mq.Packet, error) {
 			wp := mq.NewPublish()
 			if w.QoS != 0 {
 				wp.SetQoS(w.QoS)
+				tick(wp)
 			}
 			if w.Retain {
 				wp.SetRetain(true)
+				tick(wp)
 			}
 			if err := buildPublish(wp, w.Topic, w.Payload, w.Props); err != nil {
 				return nil, err
@@ -143,21 +181,25 @@ func Build(p *spec.Packet) (mq.Packet, error) {
 			for _, pr := range w.Props {
 				if pr.ID == 0x18 {
 					c.SetWillDelayInterval(pr.N)
+					tick(c)
 				}
 			}
 			c.SetWill(wp)
+			tick(c)
 		}
 		if p.HasUser {
 			if len(p.User) == 0 {
 				return nil, nc("user name flag with empty user name")
 			}
 			c.SetUsername(string(p.User))
+			tick(c)
 		}
 		if p.HasPass {
 			if len(p.Pass) == 0 {
 				return nil, nc("password flag with empty password")
 			}
 			c.SetPassword(cp(p.Pass))
+			tick(c)
 		}
 		return c, nil
 
@@ -165,46 +207,65 @@ func Build(p *spec.Packet) (mq.Packet, error) {
 		c := mq.NewConnAck()
 		if p.SessionPresent {
 			c.SetSessionPresent(true)
+			tick(c)
 		}
 		if p.Reason != 0 {
 			c.SetReasonCode(mq.ReasonCode(p.Reason))
+			tick(c)
 		}
 		for _, pr := range p.Props {
 			switch pr.ID {
 			case 0x11:
 				c.SetSessionExpiryInterval(pr.N)
+				tick(c)
 			case 0x21:
 				c.SetReceiveMax(uint16(pr.N))
+				tick(c)
 			case 0x24:
 				c.SetMaxQoS(uint8(pr.N))
+				tick(c)
 			case 0x25:
 				c.SetRetainAvailable(pr.N != 0)
+				tick(c)
 			case 0x27:
 				c.SetMaxPacketSize(pr.N)
+				tick(c)
 			case 0x12:
 				c.SetAssignedClientID(string(pr.B))
+				tick(c)
 			case 0x22:
 				c.SetTopicAliasMax(uint16(pr.N))
+				tick(c)
 			case 0x1f:
 				c.SetReasonString(string(pr.B))
+				tick(c)
 			case 0x28:
 				c.SetWildcardSubAvailable(pr.N != 0)
+				tick(c)
 			case 0x29:
 				c.SetSubIdentifiersAvailable(pr.N != 0)
+				tick(c)
 			case 0x2a:
 				c.SetSharedSubAvailable(pr.N != 0)
+				tick(c)
 			case 0x13:
 				c.SetServerKeepAlive(uint16(pr.N))
+				tick(c)
 			case 0x1a:
 				c.SetResponseInformation(string(pr.B))
+				tick(c)
 			case 0x1c:
 				c.SetServerReference(string(pr.B))
+				tick(c)
 			case 0x15:
 				c.SetAuthMethod(string(pr.B))
+				tick(c)
 			case 0x16:
 				c.SetAuthData(cp(pr.B))
+				tick(c)
 			case 0x26:
 				c.AddUserProp(string(pr.B), string(pr.V))
+				tick(c)
 			default:
 				return nil, nc("property 0x%02x has no setter on ConnAck", pr.ID)
 			}
@@ -215,15 +276,19 @@ func Build(p *spec.Packet) (mq.Packet, error) {
 		c := mq.NewPublish()
 		if p.Flags&8 != 0 {
 			c.SetDuplicate(true)
+			tick(c)
 		}
 		if q := (p.Flags >> 1) & 3; q != 0 {
 			c.SetQoS(q)
+			tick(c)
 		}
 		if p.Flags&1 != 0 {
 			c.SetRetain(true)
+			tick(c)
 		}
 		if p.PacketID != 0 {
 			c.SetPacketID(p.PacketID)
+			tick(c)
 		}
 		if err := buildPublish(c, p.Topic, p.Payload, p.Props); err != nil {
 			return nil, err
@@ -256,16 +321,20 @@ func Build(p *spec.Packet) (mq.Packet, error) {
 		}
 		if p.PacketID != 0 {
 			c.SetPacketID(p.PacketID)
+			tick(c)
 		}
 		if p.Reason != 0 {
 			c.SetReasonCode(mq.ReasonCode(p.Reason))
+			tick(c)
 		}
 		for _, pr := range p.Props {
 			switch pr.ID {
 			case 0x1f:
 				c.SetReasonString(string(pr.B))
+				tick(c)
 			case 0x26:
 				c.AddUserProp(string(pr.B), string(pr.V))
+				tick(c)
 			default:
 				return nil, nc("property 0x%02x has no setter on %s", pr.ID, TypeNames[p.Type])
 			}
@@ -276,19 +345,23 @@ func Build(p *spec.Packet) (mq.Packet, error) {
 		c := mq.NewSubscribe()
 		if p.PacketID != 0 {
 			c.SetPacketID(p.PacketID)
+			tick(c)
 		}
 		for _, pr := range p.Props {
 			switch pr.ID {
 			case 0x0b:
 				c.SetSubscriptionID(int(pr.N))
+				tick(c)
 			case 0x26:
 				c.AddUserProp(string(pr.B), string(pr.V))
+				tick(c)
 			default:
 				return nil, nc("property 0x%02x has no setter on Subscribe", pr.ID)
 			}
 		}
 		for _, f := range p.Filters {
 			c.AddFilters(mq.NewTopicFilter(string(f.Topic), mq.Opt(f.Opts)))
+			tick(c)
 		}
 		return c, nil
 
@@ -308,19 +381,23 @@ func Build(p *spec.Packet) (mq.Packet, error) {
 		}
 		if p.PacketID != 0 {
 			c.SetPacketID(p.PacketID)
+			tick(c)
 		}
 		for _, pr := range p.Props {
 			switch pr.ID {
 			case 0x1f:
 				c.SetReasonString(string(pr.B))
+				tick(c)
 			case 0x26:
 				c.AddUserProp(string(pr.B), string(pr.V))
+				tick(c)
 			default:
 				return nil, nc("property 0x%02x has no setter on %s", pr.ID, TypeNames[p.Type])
 			}
 		}
 		for _, rc := range p.Codes {
 			c.AddReasonCode(mq.ReasonCode(rc))
+			tick(c)
 		}
 		return c, nil
 
@@ -328,17 +405,20 @@ func Build(p *spec.Packet) (mq.Packet, error) {
 		c := mq.NewUnsubscribe()
 		if p.PacketID != 0 {
 			c.SetPacketID(p.PacketID)
+			tick(c)
 		}
 		for _, pr := range p.Props {
 			switch pr.ID {
 			case 0x26:
 				c.AddUserProp(string(pr.B), string(pr.V))
+				tick(c)
 			default:
 				return nil, nc("property 0x%02x has no setter on Unsubscribe", pr.ID)
 			}
 		}
 		for _, f := range p.Filters {
 			c.AddFilter(string(f.Topic))
+			tick(c)
 		}
 		return c, nil
 
@@ -351,6 +431,7 @@ func Build(p *spec.Packet) (mq.Packet, error) {
 		c := mq.NewDisconnect()
 		if p.Reason != 0 {
 			c.SetReasonCode(mq.ReasonCode(p.Reason))
+			tick(c)
 		}
 		for _, pr := range p.Props {
 			if s, ok := disconnectSetter(c, pr); ok {
@@ -360,6 +441,7 @@ func Build(p *spec.Packet) (mq.Packet, error) {
 			switch pr.ID {
 			case 0x26:
 				c.AddUserProp(string(pr.B), string(pr.V))
+				tick(c)
 			default:
 				return nil, nc("property 0x%02x has no setter on Disconnect", pr.ID)
 			}
@@ -370,17 +452,22 @@ func Build(p *spec.Packet) (mq.Packet, error) {
 		c := mq.NewAuth()
 		if p.Reason != 0 {
 			c.SetReasonCode(mq.ReasonCode(p.Reason))
+			tick(c)
 		}
 		for _, pr := range p.Props {
 			switch pr.ID {
 			case 0x15:
 				c.SetAuthMethod(string(pr.B))
+				tick(c)
 			case 0x16:
 				c.SetAuthData(cp(pr.B))
+				tick(c)
 			case 0x1f:
 				c.SetReasonString(string(pr.B))
+				tick(c)
 			case 0x26:
 				c.AddUserProp(string(pr.B), string(pr.V))
+				tick(c)
 			default:
 				return nil, nc("property 0x%02x has no setter on Auth", pr.ID)
 			}
